@@ -1,19 +1,254 @@
 package main
 
-// Bounded scheduler for 2-thread harnesses (see DESIGN.md 1.4). Threads are Go
-// goroutines passing a baton, so exactly one interpreter thread runs at a time.
+// Bounded scheduler for two-thread harnesses (DESIGN.md 1.4): verif_par(f, g) runs f and g
+// as two interpreter threads. Threads are host goroutines passing a baton, so exactly one
+// interpreter thread runs at a time. Preemption points are loads and stores of heap cells
+// and mutex operations; at each one the scheduler takes a decision "switch?" (a path
+// decision, so schedules are explored by the same DFS), with at most maxSwitches voluntary
+// context switches per run. A thread blocked on a mutex forces a switch; if nobody can run
+// it is a deadlock. Memory is sequentially consistent.
 
 import (
+	"fmt"
 	"go/token"
 )
 
-type scheduler struct {
-	i *interpreter
+type thread struct {
+	id      int
+	resume  chan struct{}
+	done    bool
+	blocked *value // mutex it waits for
+	err     interface{}
 }
 
-func (s *scheduler) reset()                                                    {}
-func (s *scheduler) preempt(fr *frame, why string)                             {}
-func (s *scheduler) spawn(fr *frame, fn value, args []value, pos token.Pos)    { abandon("scheduler not enabled") }
-func (s *scheduler) runMain(f func())                                          { f() }
-func (s *scheduler) lock(fr *frame, p *value, read bool) value                 { abandon("scheduler lock"); return nil }
-func (s *scheduler) unlock(fr *frame, p *value, read bool) value               { abandon("scheduler unlock"); return nil }
+type threadAbort struct{}
+
+type scheduler struct {
+	abort       bool
+	i           *interpreter
+	threads     []*thread
+	cur         *thread
+	switches    int
+	maxSwitches int
+	active      bool
+	mainWake    chan struct{}
+	points      int
+}
+
+func (s *scheduler) reset() {
+	s.threads = nil
+	s.cur = nil
+	s.switches = 0
+	s.active = false
+	s.points = 0
+	s.abort = false
+}
+
+func (s *scheduler) runMain(f func()) { f() }
+
+func (s *scheduler) spawn(fr *frame, fn value, args []value, pos token.Pos) {
+	// `go` statements of the code under analysis are recorded, not run (as without scheduler)
+	s.i.goCalls = append(s.i.goCalls, goCall{fn: fn, args: args, pos: pos})
+}
+
+// par runs the two closures as threads until both finished.
+func (s *scheduler) par(fr *frame, fns []value) {
+	if s.active {
+		abandon("nested verif_par")
+	}
+	s.active = true
+	s.mainWake = make(chan struct{})
+	s.threads = nil
+	for k := range fns {
+		s.threads = append(s.threads, &thread{id: k, resume: make(chan struct{})})
+	}
+	for k, fn := range fns {
+		t := s.threads[k]
+		fn := fn
+		go func() {
+			<-t.resume
+			if s.abort {
+				t.done = true
+				return
+			}
+			defer func() {
+				r := recover()
+				if _, aborted := r.(threadAbort); aborted {
+					t.done = true
+					return
+				}
+				if r != nil {
+					t.err = r
+					t.done = true
+					s.mainWake <- struct{}{}
+					return
+				}
+				t.done = true
+				s.yieldFrom(t, true)
+			}()
+			s.i.call(fr, token.NoPos, fn, nil)
+		}()
+	}
+	s.cur = s.threads[0]
+	s.cur.resume <- struct{}{}
+	<-s.mainWake
+	s.active = false
+	// release threads that are still parked (error in the other thread, or deadlock)
+	s.abort = true
+	for _, t := range s.threads {
+		if !t.done {
+			select {
+			case t.resume <- struct{}{}:
+			default:
+			}
+		}
+	}
+	for _, t := range s.threads {
+		if t.err != nil {
+			panic(t.err)
+		}
+	}
+	for _, t := range s.threads {
+		if !t.done {
+			panic(pathEnd{kind: "deadlock", msg: fmt.Sprintf("thread %d never finished (blocked on a mutex held by a finished or blocked thread)", t.id)})
+		}
+	}
+}
+
+func (s *scheduler) other(t *thread) *thread {
+	for _, o := range s.threads {
+		if o != t {
+			return o
+		}
+	}
+	return nil
+}
+
+func (s *scheduler) runnable(t *thread) bool {
+	if t == nil || t.done {
+		return false
+	}
+	if t.blocked != nil {
+		m := s.i.mutex(t.blocked)
+		return !m.locked
+	}
+	return true
+}
+
+// yieldFrom hands the baton from t to the other thread (or back to the main goroutine when
+// everything is finished or stuck). If t is not finished it waits to be resumed.
+func (s *scheduler) yieldFrom(t *thread, finished bool) {
+	o := s.other(t)
+	if s.runnable(o) {
+		s.cur = o
+		o.resume <- struct{}{}
+	} else if finished || !s.runnable(t) {
+		// nobody else can run: if t is finished, or t itself is blocked, we are done/stuck
+		if finished {
+			allDone := true
+			for _, x := range s.threads {
+				if !x.done {
+					allDone = false
+				}
+			}
+			_ = allDone
+		}
+		s.mainWake <- struct{}{}
+		if !finished {
+			<-t.resume // resumed only to be aborted: the path ends in the main goroutine
+			panic(threadAbort{})
+		}
+		return
+	} else {
+		return // t continues
+	}
+	if !finished {
+		<-t.resume
+		if s.abort {
+			panic(threadAbort{})
+		}
+	}
+}
+
+func (s *scheduler) preempt(fr *frame, why string) {
+	if !s.active || s.cur == nil {
+		return
+	}
+	s.points++
+	t := s.cur
+	o := s.other(t)
+	if s.switches >= s.maxSwitches || !s.runnable(o) {
+		return
+	}
+	if s.i.ex.choice(2, "sched") == 1 {
+		s.switches++
+		// the schedule is part of the counterexample: record where the switch happened
+		s.i.ex.inputs = append(s.i.ex.inputs, inputRec{Name: fmt.Sprintf("switch-from-thread-%d@%s(%s)", t.id, fr.site(), why), Kind: "sched", Value: uint64(s.points)})
+		s.yieldFrom(t, false)
+	}
+}
+
+func (s *scheduler) lock(fr *frame, p *value, read bool) value {
+	i := s.i
+	if !s.active {
+		m := i.mutex(p)
+		if m.locked || (!read && m.readers > 0) {
+			panic(pathEnd{kind: "deadlock", msg: "Lock on a mutex already held (locked at " + m.site + ")", site: fr.caller.site()})
+		}
+		if read {
+			m.readers++
+		} else {
+			m.locked = true
+		}
+		m.site = fr.caller.site()
+		return nil
+	}
+	s.preempt(fr, "lock")
+	t := s.cur
+	for {
+		m := i.mutex(p)
+		if !(m.locked || (!read && m.readers > 0)) {
+			if read {
+				m.readers++
+			} else {
+				m.locked = true
+				m.owner = t.id
+			}
+			m.site = fr.caller.site()
+			t.blocked = nil
+			return nil
+		}
+		// blocked: forced switch (not counted against the bound)
+		t.blocked = p
+		o := s.other(t)
+		if !s.runnable(o) {
+			panic(pathEnd{kind: "deadlock", msg: "both threads blocked: Lock on a mutex locked at " + m.site, site: fr.caller.site()})
+		}
+		s.cur = o
+		o.resume <- struct{}{}
+		<-t.resume
+		if s.abort {
+			panic(threadAbort{})
+		}
+	}
+}
+
+func (s *scheduler) unlock(fr *frame, p *value, read bool) value {
+	i := s.i
+	m := i.mutex(p)
+	if read {
+		if m.readers == 0 {
+			i.rtPanic(fr.caller, "sync: RUnlock of unlocked RWMutex")
+		}
+		m.readers--
+	} else {
+		if !m.locked {
+			i.rtPanic(fr.caller, "sync: unlock of unlocked mutex")
+		}
+		m.locked = false
+	}
+	if s.active {
+		s.preempt(fr, "unlock")
+	}
+	return nil
+}
